@@ -15,6 +15,7 @@ import TonVerif.Proofs.Codec
 import TonVerif.Spec.Tlb.Block
 import TonVerif.Proofs.SrcTlbParsers
 import TonVerif.Proofs.SrcTlbParsersTx
+import TonVerif.Proofs.SrcTlbParsersBlk
 
 namespace TonVerif.Tlb
 open TonVerif
@@ -1526,5 +1527,75 @@ example : ∃ f, (transactionF 1).enc Tx.exampleTransaction = some f ∧
   have h2 : Tx.exampleTransaction.noVar = true := by decide +kernel
   obtain ⟨f, hf⟩ := Option.isSome_iff_exists.1 h1
   exact ⟨f, hf, fun k => c16_src_Transaction 1 Tx.exampleTransaction f hf h2 k⟩
+
+/-! ## BEGIN tlbsrc2 — Source tie, third part: account.py / block.py / config.py classes (`c16_src_*`, continued)
+
+`SrcBlk.<Class>` (Generated/TlbParsersBlk.lean) is regenerated on every run by harness/translate/tlbparsers_blk.py; `ConsensusConfig` and
+`BlockInfo` are in Generated/TlbParsers.lean (first part; the translator now reads constant tables `{b'\xd6': 'consensus_config', …}` and
+turns an `if` that only assigns into ONE conditional `let`).  Declared views: Spec/Tlb/PyViewBlk.lean (namespace `Blk`).  Same statement as
+above: on the spec encoding of ANY value followed by ANY trailer the parser of the working tree returns every field with its encoded
+value and leaves exactly the trailer; `v.noVar = true` where the type contains a `MsgAddressInt` (`load_address` has no `addr_var`). -/
+
+/-- `ConsensusConfig.deserialize` (all four constructors `#d6 … #d9`: tag looked up in the constant table, `flags = 0` and
+    `round_candidates >= 1` asserted, `proto_version` / `catchain_max_blocks_coeff` only where the layout has them, `None` otherwise),
+    regenerated from the source: on the spec encoding of ANY value followed by ANY trailer it returns every field with its encoded
+    value (view `Blk.view_ConsensusConfig`) and consumes exactly the encoded bits. -/
+theorem c16_src_ConsensusConfig (v : Val) (f : Frag) (he : consensusConfig.enc v = some f) (k : Frag) :
+    Src.ConsensusConfig false (f ++ k) = some (Blk.view_ConsensusConfig v, k) :=
+  Blk.refines_ConsensusConfig.on_encoding v f he k
+
+/-- `BlockInfo.deserialize` + `BlockInfo.__init__` (tag, 20 inline fields, `flags . 0?GlobalVersion`, `not_master?^BlkMasterInfo`,
+    `prev_ref:^(BlkPrevInfo after_merge)`, `vert_seqno_incr?^(BlkPrevInfo 0)`; `flags <= 1` and `vert_seq_no >= vert_seqno_incr` checked),
+    regenerated from the source: on the spec encoding of ANY value followed by ANY trailer it returns every attribute with its encoded
+    value (view `Blk.view_BlockInfo`; absent conditional fields are `None`) and consumes exactly the encoded bits and refs. -/
+theorem c16_src_BlockInfo (v : Val) (f : Frag) (he : blockInfo.enc v = some f) (k : Frag) :
+    Src.BlockInfo false (f ++ k) = some (Blk.view_BlockInfo v, k) :=
+  Blk.refines_BlockInfo.on_encoding v f he k
+
+/-- `DepthBalanceInfo.deserialize`, regenerated from the source: every field, exact consumption. -/
+theorem c16_src_DepthBalanceInfo (v : Val) (f : Frag) (he : depthBalanceInfo.enc v = some f) (k : Frag) :
+    SrcBlk.DepthBalanceInfo false (f ++ k) = some (Blk.view_DepthBalanceInfo v, k) :=
+  Blk.refines_DepthBalanceInfo.on_encoding v f he k
+
+/-- `ValueFlow.deserialize` (both tags `#b8e48dfb` and `#3ebf98b7`: the two `^[ … ]` groups of four CurrencyCollections each — with their
+    extra-currency dictionaries — read from their own reference cells, `fees_collected` (and `burned`) inline in between),
+    regenerated from the source: every field with its encoded value, exactly the encoded bits and refs consumed. -/
+theorem c16_src_ValueFlow (v : Val) (f : Frag) (he : valueFlow.enc v = some f) (k : Frag) :
+    SrcBlk.ValueFlow false (f ++ k) = some (Blk.view_ValueFlow v, k) :=
+  Blk.refines_ValueFlow.on_encoding v f he k
+
+/-- `ShardDescr.deserialize` (both tags `#b` inline fees and `#a` fees in a `^[ … ]` group; `flags = 0` checked; `split_merge_at` through
+    the regenerated `FutureSplitMerge`), regenerated from the source: every field, exact consumption. -/
+theorem c16_src_ShardDescr (v : Val) (f : Frag) (he : shardDescr.enc v = some f) (k : Frag) :
+    SrcBlk.ShardDescr false (f ++ k) = some (Blk.view_ShardDescr v, k) :=
+  Blk.refines_ShardDescr.on_encoding v f he k
+
+/-- `AccountStorage.deserialize` (`last_trans_lt`, balance with its extra-currency dictionary, `AccountState`), regenerated from the source. -/
+theorem c16_src_AccountStorage (v : Val) (f : Frag) (he : accountStorage.enc v = some f) (k : Frag) :
+    SrcBlk.AccountStorage false (f ++ k) = some (Blk.view_AccountStorage v, k) :=
+  Blk.refines_AccountStorage.on_encoding v f he k
+
+/-- `Account.deserialize` (`account_none$0` ↦ `None`; `account$1`: address through `load_address`, `StorageInfo`, `AccountStorage`),
+    regenerated from the source; `noVar`: the address is not `addr_var`. -/
+theorem c16_src_Account (v : Val) (f : Frag) (he : account.enc v = some f) (hv : v.noVar = true) (k : Frag) :
+    SrcBlk.Account false (f ++ k) = some (Blk.view_Account v, k) :=
+  Blk.refines_Account.on_encoding v f he hv k
+
+/-- `ShardAccount.deserialize` (`account:^Account` parsed from its own cell, `last_trans_hash`, `last_trans_lt`), regenerated from the
+    source; the bookkeeping argument `cell=` (a copy of the slice) is not part of the statement. -/
+theorem c16_src_ShardAccount (v : Val) (f : Frag) (he : shardAccount.enc v = some f) (hv : v.noVar = true) (k : Frag) :
+    SrcBlk.ShardAccount false (f ++ k) = some (Blk.view_ShardAccount v, k) :=
+  Blk.refines_ShardAccount.on_encoding v f he hv k
+
+/-- non-vacuity: `account_none$0` followed by a trailer bit is read as `None`, the trailer is left -/
+example : SrcBlk.Account false ⟨[false, true], []⟩ = some (.unit, ⟨[true], []⟩) := rfl
+
+/-- non-vacuity: a concrete `consensus_config_new#d7` value is encodable (so `c16_src_ConsensusConfig` applies to it) -/
+example : (consensusConfig.enc (.con "consensus_config_new" (.record [("flags", .int 0), ("new_catchain_ids", .bool true),
+    ("round_candidates", .int 3), ("next_candidate_delay_ms", .int 2000), ("consensus_timeout_ms", .int 16000),
+    ("fast_attempts", .int 3), ("attempt_duration", .int 8), ("catchain_max_deps", .int 4), ("max_block_bytes", .int 2097152),
+    ("max_collated_bytes", .int 2097152)]))).isSome = true := by decide +kernel
+
+/-! ## END tlbsrc2 -/
 
 end TonVerif.Tlb
